@@ -195,7 +195,8 @@ func run(env *simrt.Env, sci interface{}) {
 				case 4:
 					wan.AddChunkFilter(func(vnet.Chunk) bool { return true })
 				case 5:
-					_ = wan.AddHost(fmt.Sprintf("h%d.example", o), "10.0.0.1")
+					// few names: registering a name again (update) while others resolve it
+					_ = wan.AddHost(fmt.Sprintf("h%d.example", o%3), fmt.Sprintf("10.0.0.%d", 1+o%2))
 				case 6:
 					if o%3 == 0 {
 						_ = wan.Stop()
@@ -208,6 +209,8 @@ func run(env *simrt.Env, sci interface{}) {
 				case 8:
 					_, _ = n1.Interfaces()
 					_, _ = n1.ResolveUDPAddr("udp", "10.0.0.2:4000")
+					_, _ = n1.ResolveUDPAddr("udp", fmt.Sprintf("h%d.example:4000", o%3))
+					_, _ = n1.ResolveIPAddr("ip", fmt.Sprintf("h%d.example", (o+1)%3))
 				}
 			}
 		})
@@ -370,7 +373,11 @@ func run(env *simrt.Env, sci interface{}) {
 				case 4:
 					if c := pick(o); c != nil {
 						_, _ = c.Write(make([]byte, 1+o%50))
-						_ = c.SetDeadline(soon())
+						if o%3 == 0 {
+							_ = c.SetWriteDeadline(soon())
+						} else {
+							_ = c.SetDeadline(soon())
+						}
 					}
 				case 5:
 					if c := pick(o); c != nil && o%2 == 0 {
